@@ -436,8 +436,9 @@ def run(chk, replay=None):
             nrand, maxlen = 1080, 30
         else:
             cases += list(gen_exhaustive(2, [(16, 0), (0, 0), (1, 1), (1024, 16)]))
-            cases += list(gen_exhaustive(3, [(16, 8), (0, 0)]))
-            nrand, maxlen = 40000, 120
+            cases += list(gen_exhaustive(3, [(16, 8)]))
+            cases += list(gen_exhaustive(3, [(0, 0)], limit=0.25, rng=rng))
+            nrand, maxlen = 12000, 80
         import random as _r
         from concurrent.futures import ThreadPoolExecutor
         nw = 12
